@@ -23,6 +23,10 @@
 //	tls <op,…>        as life, but the POP3 server runs with TLSEnabled+ForceTLS (self-signed certificate made at
 //	                  run time) and POP3 clients speak TLS; extra op xP: a plain-text client on the TLS port      -> dropped
 //
+//	boot <wsp> <period>  the assembled server (server.FullAssembly + Services.Start) with any subset of the three
+//	                  listeners (web, smtp, pop3: mask of 0/1) unable to bind: is readyFunc called, is a failure
+//	                  notified, and does what main() does next (cancel, Drain, Drain, Join) return?
+//
 //	ret <period> <n> <when>  retention scanner over n mailboxes: Start/Join and DoScan against cancellation
 package main
 
@@ -54,6 +58,7 @@ import (
 	"github.com/inbucket/inbucket/v3/pkg/message"
 	"github.com/inbucket/inbucket/v3/pkg/msghub"
 	"github.com/inbucket/inbucket/v3/pkg/policy"
+	"github.com/inbucket/inbucket/v3/pkg/server"
 	"github.com/inbucket/inbucket/v3/pkg/server/pop3"
 	"github.com/inbucket/inbucket/v3/pkg/server/smtp"
 	"github.com/inbucket/inbucket/v3/pkg/storage"
@@ -816,8 +821,97 @@ func exec(kind string, in []string) []string {
 	return strings.Fields(stdout.String())
 }
 
+// runBoot: Services.Start with some listeners unable to bind (their address is held by the driver).
+func runBoot(mask string, period string) []string {
+	if len(mask) != 3 {
+		return []string{"BADINPUT"}
+	}
+	base := os.Getenv("VERIF_WORKDIR")
+	if base == "" {
+		base = os.TempDir()
+	}
+	dir, err := os.MkdirTemp(base, "c19boot")
+	if err != nil {
+		return []string{"fail:setup"}
+	}
+	defer os.RemoveAll(dir)
+	for _, e := range os.Environ() {
+		if strings.HasPrefix(e, "INBUCKET_") {
+			os.Unsetenv(strings.SplitN(e, "=", 2)[0])
+		}
+	}
+	storage.Constructors["memory"] = mem.New
+	setenv("INBUCKET_STORAGE_TYPE", "memory")
+	setenv("INBUCKET_STORAGE_RETENTIONPERIOD", period)
+	setenv("INBUCKET_WEB_UIDIR", dir)
+	for i, name := range []string{"WEB", "SMTP", "POP3"} {
+		addr := "127.0.0.1:0"
+		if mask[i] == '1' {
+			l, err := net.Listen("tcp4", "127.0.0.1:0")
+			if err != nil {
+				return []string{"fail:setup"}
+			}
+			defer l.Close()
+			addr = l.Addr().String()
+		}
+		setenv("INBUCKET_"+name+"_ADDR", addr)
+	}
+	conf, err := config.Process()
+	if err != nil {
+		return []string{"fail:config"}
+	}
+	svc, err := server.FullAssembly(conf)
+	if err != nil {
+		return []string{"fail:assembly:" + vh.HS(err.Error())}
+	}
+	ctx, cancel := context.WithCancel(context.Background())
+	defer cancel()
+	ready := make(chan struct{})
+	svc.Start(ctx, func() { close(ready) })
+	isReady, notified := false, false
+	select {
+	case <-ready:
+		isReady = true
+	case <-svc.Notify():
+		notified = true
+	case <-time.After(longWait * 3):
+	}
+	// give the other signal a chance to show up, too
+	time.Sleep(400 * time.Millisecond)
+	if !isReady {
+		select {
+		case <-ready:
+			isReady = true
+		default:
+		}
+	}
+	if !notified {
+		select {
+		case <-svc.Notify():
+			notified = true
+		default:
+		}
+	}
+	outs := []string{"ready=" + vh.B(isReady), "notified=" + vh.B(notified)}
+	// what main() does next
+	cancel()
+	switch {
+	case !within(longWait, svc.SMTPServer.Drain):
+		outs = append(outs, "stuck:smtp-drain")
+	case !within(longWait, svc.POP3Server.Drain):
+		outs = append(outs, "stuck:pop3-drain")
+	case !within(longWait, svc.RetentionScanner.Join):
+		outs = append(outs, "stuck:retention-join")
+	default:
+		outs = append(outs, "returns")
+	}
+	return outs
+}
+
 func run1(kind string, in []string) []string {
 	switch kind {
+	case "boot":
+		return runBoot(in[0], in[1])
 	case "life", "tls":
 		var ops []string
 		if in[0] != "-" {
